@@ -176,6 +176,12 @@ func c05Scenario(p c05P, b Bounds) *Scenario {
 							vs.Event("env", "callback")
 							peer.Send([]byte(`{"jsonrpc":"2.0","id":"cb4","method":"ctxwait"}`))
 						})
+					case "pushnote":
+						j.Go("pushnote", func() {
+							// a notification pushed by the server; this client has no OnNotify hook
+							vs.Event("env", "pushnote")
+							peer.Send([]byte(`{"jsonrpc":"2.0","method":"srvnote","params":[1]}`))
+						})
 					case "badreply":
 						j.Go("badreply", func() {
 							vs.Await(func() bool { return h.idOf("m0") != "" || h.peerDone || (p.Op == "notify" && len(h.reqs) > 0) }, "await request")
@@ -254,6 +260,17 @@ func c05Check(p c05P, x *vs.Exec) []Viol {
 	ret := x.Log[retAt]
 	stopCause := before(retAt, "call", "Close") || before(retAt, "env", "eof") || before(retAt, "env", "recverr") ||
 		before(retAt, "env", "malformed") || before(retAt, "env", "sendfault") || before(retAt, "env", "badreply")
+	// once the connection has ended (peer hung up, Recv failed, a record that is not JSON arrived) nothing blocks:
+	// the operation must be over by the time everything has come to rest, without the harness closing the client
+	if !has(p.Items, "close") && !has(p.Items, "callback") && !has(p.Items, "gcallback") && !has(p.Items, "ucallback") && !has(p.Items, "ccallback") {
+		cl := findEv(x, 0, "quiet", "after-events")
+		for _, cause := range []string{"eof", "recverr", "malformed"} {
+			if c := findEv(x, 0, "env", cause); c >= 0 && cl >= 0 && c < cl && retAt > cl {
+				Hit("C05.R2")
+				v = append(v, Viol{"C05.R2", "the connection had ended (" + cause + "), but the operation returned only after the client was closed by hand"})
+			}
+		}
+	}
 	// a request whose Send failed must end at once with an error: nothing else may be needed to release it
 	for i, e := range x.Log {
 		if e.K == "out" && e.Arg(0) == "cli" && (strings.Contains(e.Arg(1), `"m0"`) || strings.Contains(e.Arg(1), `"bn"`)) && i+1 < len(x.Log) && x.Log[i+1].K == "fault" && x.Log[i+1].Arg(1) == "send" {
@@ -425,7 +442,7 @@ func orderings(items []string) [][]string {
 	return out
 }
 
-var c05Events = []string{"reply", "cancel", "deadline", "close", "eof", "recverr", "malformed", "sendfault", "callback", "badreply"}
+var c05Events = []string{"reply", "cancel", "deadline", "close", "eof", "recverr", "malformed", "sendfault", "callback", "badreply", "pushnote"}
 
 // c05Batch2: a Batch of two calls whose replies arrive as separate frames, in either order,
 // optionally with the batch context cancelled at an arbitrary moment. Every member must end with
